@@ -126,10 +126,13 @@ def supercell_sizes(dim, nb, budget=12000):
             if nb * nb * trip[-1] ** 3 <= budget:
                 return trip
         return (3, 4, 5)
-    for trip in ((16, 20, 24), (12, 16, 20), (10, 12, 16), (8, 10, 12)):
-        if nb * nb * trip[-1] ** 2 <= budget:
-            return trip
-    return (8, 10, 12)
+    # 2D: the lattice Green function is logarithmic, finite-size corrections carry 1/N and (ln N)/N^2 terms and small
+    # cells sit in a pre-asymptotic regime where successive 1/N extrapolants can coincide by accident (seen on the
+    # triangular lattice with second-neighbour interactions at L = 16, 20, 24: the estimated error bar was 20x too small).
+    # Cells are cheap here, so use a wide triple (L/2, 3L/4, L) with L as large as the budget allows (at most 64).
+    L = min(64, int(np.sqrt(budget / float(nb * nb))))
+    L = max(12, 4 * (L // 4))
+    return (L // 2, 3 * L // 4, L)
 
 
 def dilute_limit(lattice, nb, jumps, Fstate, Ftrans, FS, FV, FT0, sizes=None, budget=12000):
@@ -150,9 +153,19 @@ def dilute_limit(lattice, nb, jumps, Fstate, Ftrans, FS, FV, FT0, sizes=None, bu
     def ex(k, a, b):
         return (b[0] * b[k] - a[0] * a[k]) / (b[0] - a[0])
     out = {"D0": D0, "states": [r[4] for r in res], "sizes": list(sizes)}
+    def quad(k):
+        # three-point extrapolant with 1/N and 1/N^2 terms
+        A = np.array([[1., 1. / r[0], 1. / r[0] ** 2] for r in res])
+        w = np.linalg.solve(A.T, np.array([1., 0., 0.]))
+        return sum(wi * r[k] for wi, r in zip(w, res))
     for nm, k in (("Lss", 1), ("Lsv", 2), ("L1vv", 3)):
         e12, e23 = ex(k, res[0], res[1]), ex(k, res[1], res[2])
-        out[nm] = e23
-        out[nm + "_err"] = float(np.abs(e23 - e12).max())
+        if dim == 2:
+            q = quad(k)
+            out[nm] = q
+            out[nm + "_err"] = float(max(np.abs(q - e23).max(), 0.2 * np.abs(e23 - e12).max()))
+        else:
+            out[nm] = e23
+            out[nm + "_err"] = float(np.abs(e23 - e12).max())
         out[nm + "_raw"] = res[2][k]
     return out
